@@ -241,6 +241,7 @@ type Record struct {
 	ResultDigest uint64          `json:"result_digest"`
 	Faults       map[string]int  `json:"faults"`
 	Noisy        int             `json:"noisy"`
+	Masked       int             `json:"masked"`
 	ExpPanics    int             `json:"exp_panics"`
 	TooSlow      int             `json:"too_slow"`
 	Missing      int             `json:"missing"`
